@@ -311,8 +311,10 @@ bool array_file_op(Ctx &c, const Op &op, int oi, vnadata_t **obj, ArrayModel *mo
 	if (valid && rc != 0) { c.violate("model", "fmt:rc", strf("set_format(\"%s\") failed (errno %s)", text.c_str(), errno_name(e))); return true; }
 	if (!valid) {
 	    if (rc == 0) { c.violate("model", "fmt:rc", strf("set_format(\"%s\") accepted an invalid specifier list", text.c_str())); return true; }
-	    if (e != EINVAL) { c.violate("model", "fmt:errno", strf("set_format(\"%s\") refused with errno %s", text.c_str(), errno_name(e))); return true; }
-	    c.count("probe.refused");
+	    // (not re-issued after an injected allocation failure: the call may have run out of memory before it saw what is wrong with the list)
+	    bool by_fault = c.no_retry && sim_alloc_fault_fired() && e == ENOMEM;
+	    if (e != EINVAL && !by_fault) { c.violate("model", "fmt:errno", strf("set_format(\"%s\") refused with errno %s", text.c_str(), errno_name(e))); return true; }
+	    c.count(by_fault ? "probe.failed_by_fault_not_reissued" : "probe.refused");
 	} else { m.has_format = !null; m.format = null ? "" : canon; }
 	compare(oi, valid ? "set_format" : "refused set_format");
 	return true;
@@ -601,7 +603,7 @@ void array_gen_file_ops(Rng &rng, Plan &plan, ArrayModel *m, const std::string &
 	for (int sv = 0; sv < saves; ++sv) {
 	    // precisions
 	    if (rng.chance(0.6)) { long p = rng.chance(0.25) ? 1000 : rng.range(1, 17); if (rng.chance(0.03)) p = rng.range(-1, 0); plan.ops.push_back(mk("dprec", {o, p})); }
-	    if (rng.chance(0.5)) { long p = rng.chance(0.25) ? 1000 : rng.range(1, 17); plan.ops.push_back(mk("fprec", {o, p})); }
+	    if (rng.chance(0.5)) { long p = rng.chance(0.25) ? 1000 : rng.range(1, 17); if (rng.chance(0.03)) p = rng.range(-1, 0); plan.ops.push_back(mk("fprec", {o, p})); }
 	    // file kind
 	    int ports = C;
 	    std::string name;
